@@ -1,8 +1,184 @@
 package main
 
-// runControls runs the engines on the planted fixtures (positive controls). Filled in below.
-func runControls(pd *PropDef) []Ob { return nil }
+// Positive controls: the engines are run on a tiny fixture package with one planted violation per rule
+// family on every invocation; an engine that no longer reports its planted construct makes the run
+// UNDECIDED (a rule that matches nothing would otherwise pass vacuously forever).
 
-func thoroughExtras(res *runResult, repo, verif string, pd *PropDef) {}
+import (
+	_ "embed"
+	"fmt"
+	"go/ast"
+	"go/parser"
+	"go/token"
+	"go/types"
 
-func cmdSelftest(args []string) int { return 0 }
+	"golang.org/x/tools/go/packages"
+	"golang.org/x/tools/go/ssa"
+	"golang.org/x/tools/go/ssa/ssautil"
+)
+
+//go:embed fixtures/fx.go.txt
+var fixtureSrc string
+
+func buildFixtures() (*Prog, *ssa.Package, error) {
+	fset := token.NewFileSet()
+	f, err := parser.ParseFile(fset, "fx.go", fixtureSrc, 0)
+	if err != nil {
+		return nil, nil, err
+	}
+	pkg := types.NewPackage("rcproxy/fx", "fx")
+	spkg, _, err := ssautil.BuildPackage(&types.Config{}, fset, pkg, []*ast.File{f}, ssa.InstantiateGenerics)
+	if err != nil {
+		return nil, nil, err
+	}
+	p := &Prog{Repo: "", Fset: fset, Pkgs: map[string]*packages.Package{"rcproxy/fx": {PkgPath: "rcproxy/fx", Types: pkg}},
+		SSA: spkg.Prog, SPkgs: map[string]*ssa.Package{"rcproxy/fx": spkg}, byName: map[string]*ssa.Function{}, implCache: map[string][]*ssa.Function{}}
+	for fn := range ssautil.AllFunctions(spkg.Prog) {
+		if fn.Blocks != nil && fn.Pkg == spkg {
+			p.Funcs = append(p.Funcs, fn)
+			p.byName[fnKey(fn)] = fn
+		}
+	}
+	return p, spkg, nil
+}
+
+func runControls(pd *PropDef) (out []Ob) {
+	add := func(name string, ok bool, detail string) {
+		v := OK
+		if !ok {
+			v = UNDECIDED
+			detail = "positive control failed: " + detail + " - the engine no longer sees the planted construct, so its rules cannot be trusted on this tool chain"
+		}
+		out = append(out, Ob{Rule: "control", Construct: name, Pos: "checker/fixtures/fx.go.txt", Verdict: v, Detail: detail})
+	}
+	defer func() {
+		if r := recover(); r != nil {
+			add("fixtures", false, fmt.Sprint("panic while running controls: ", r))
+		}
+	}()
+	p, _, err := buildFixtures()
+	if err != nil {
+		add("fixtures build", false, err.Error())
+		return
+	}
+	c := &Ctx{P: p, counted: map[string]int{}, funcs: map[string]bool{}, rule: &RuleInfo{ID: "control"}}
+	fn := func(name string) *ssa.Function {
+		f := p.byName["rcproxy/fx."+name]
+		if f == nil {
+			f = p.byName["(*rcproxy/fx.T)."+name]
+		}
+		if f == nil {
+			f = p.byName["(*rcproxy/fx.Q)."+name]
+		}
+		return f
+	}
+	// E7
+	nilnil := func(f *ssa.Function) int {
+		n := 0
+		allInstrs(f, func(in ssa.Instruction) {
+			if r, ok := in.(*ssa.Return); ok {
+				rs := results(r)
+				a, _ := c.definitelyNonNil(rs[0], r, 0)
+				b, _ := c.definitelyNonNil(rs[1], r, 0)
+				if !a && !b {
+					n++
+				}
+			}
+		})
+		return n
+	}
+	add("E7 (nil, nil) under a || err != nil", nilnil(fn("NilNil")) == 1, "NilNil must have exactly one possibly-(nil,nil) return")
+	add("E7 negative control", nilnil(fn("NilErr")) == 0, "NilErr must have none")
+	// E3 service loop
+	add("E3 return inside a service loop", len(returnsReachable(fn("ServiceLoop"))) == 1, "ServiceLoop has one reachable return")
+	add("E3 service loop negative control", len(returnsReachable(fn("ServiceLoopOK"))) == 0, "ServiceLoopOK has none")
+	// E3 pick in loop
+	{
+		f := fn("PickInLoop")
+		var collect *Loop
+		loops := loopsOf(f)
+		var pickBlock *ssa.BasicBlock
+		allInstrs(f, func(in ssa.Instruction) {
+			if st, ok := in.(*ssa.Store); ok {
+				if _, isG := st.Addr.(*ssa.Global); isG {
+					if l := innermostLoop(loops, st.Block()); l != nil {
+						collect = l
+					}
+				}
+			}
+			if r, ok := in.(*ssa.Return); ok {
+				if _, isConst := r.Results[0].(*ssa.Const); !isConst {
+					pickBlock = r.Block()
+				}
+			}
+		})
+		bad := false
+		if collect != nil && pickBlock != nil {
+			for _, e := range collect.exitEdges() {
+				if e[0] != collect.Header && (e[1] == pickBlock || reachableBlocks(e[1], nil)[pickBlock]) {
+					bad = true
+				}
+			}
+		}
+		add("E3 pick reachable from inside the collecting loop", bad, "PickInLoop's return must be reachable through a non-header exit edge")
+	}
+	// E8 retention
+	{
+		memo := map[string][]retainFinding{}
+		add("E8 retained slice parameter", len(c.retains(fn("Keep"), 1, 3, memo)) > 0, "T.Keep stores its argument")
+		add("E8 retention negative control", len(c.retains(fn("Copy"), 1, 3, memo)) == 0, "T.Copy copies its argument")
+	}
+	// E3 canReach through a back edge
+	{
+		f := fn("EnqueueThenFail")
+		var call, ret ssa.Instruction
+		allInstrs(f, func(in ssa.Instruction) {
+			if cl, ok := in.(*ssa.Call); ok && cl.Call.StaticCallee() != nil && cl.Call.StaticCallee().Name() == "enqueue" {
+				call = in
+			}
+			if r, ok := in.(*ssa.Return); ok && !isNilConst(r.Results[0]) {
+				ret = r
+			}
+		})
+		add("E3 action ⇝ failing return through the loop back edge", call != nil && ret != nil && canReach(call, ret), "the -ERR return must be reachable from the enqueue")
+	}
+	// E5c traversal
+	{
+		tT := p.Named("rcproxy/fx", "T")
+		links := map[*types.Var]bool{}
+		for _, l := range linkFields(tT) {
+			links[l] = true
+		}
+		trs := chainTraversals(fn("Walk"), tT, links)
+		add("E5c chain traversal and its link", len(trs) == 1 && trs[0].link.Name() == "next", "Q.Walk follows .next")
+	}
+	// E4 deciding conditions
+	{
+		f := fn("Either")
+		n := 0
+		allInstrs(f, func(in ssa.Instruction) {
+			if r, ok := in.(*ssa.Return); ok {
+				if k, isK := constInt(r.Results[0]); isK && k == 1 {
+					n = len(decidingConds(r.Block(), 0))
+					if len(guardsAt(r.Block())) != 0 {
+						n = -1
+					}
+				}
+			}
+		})
+		add("E4 disjunction: two deciding conditions, no dominating guard", n == 2, "the block guarded by a || b")
+	}
+	// path enumeration
+	{
+		f := fn("Diamonds")
+		var ret *ssa.BasicBlock
+		allInstrs(f, func(in ssa.Instruction) {
+			if _, ok := in.(*ssa.Return); ok {
+				ret = in.Block()
+			}
+		})
+		paths, complete := pathFacts(f.Blocks[0], ret, nil, 100)
+		add("path enumeration over two diamonds", complete && len(paths) == 4, fmt.Sprintf("expected 4 paths, got %d", len(paths)))
+	}
+	return out
+}
